@@ -21,17 +21,20 @@ LABELS = {
                "k", "=", "v", "END_OBJECT", "z", "=", "0", "END"],
     "units": ["a", "=", "(", "1", ",", "2", "<m>", ",", "3.5", "<km/s>", ")", "b", "=", "{", "1", "<m>", ",", "2", "<s>", "}",
               "c", "=", "7", "<K>", "END"],
+    # quoted strings that span lines, each directly followed by a name, a bracket, a comma or END
+    "multiline": ["a", "=", '"p\nq"', "b", "=", "'r\ns'", "c", "=", "(", '"t\nu"', ",", "1", ")", "d", "=", '"v w"', "END"],
     "mixed": ["a", "=", "16#FF#", "b", "=", "-1", "c", "=", "2001-01-01", "d", "=", "12:00", "e", "=", "(", "1",
               "<m>", ",", "2", ")", "f", "=", "+1.5e3", "g", "=", "NULL"],
 }
-LABELS_BY_DIALECT = {"PVL": ("values", "blocks", "mixed", "units"), "ODL": ("values", "blocks", "units"),
-                     "PDS3": ("values", "blocks", "units"), "ISIS": ("values", "blocks", "mixed", "units"),
-                     "Omni": ("values", "blocks", "mixed", "units")}
+LABELS_BY_DIALECT = {"PVL": ("values", "blocks", "mixed", "units", "multiline"), "ODL": ("values", "blocks", "units", "multiline"),
+                     "PDS3": ("values", "blocks", "units", "multiline"), "ISIS": ("values", "blocks", "mixed", "units", "multiline"),
+                     "Omni": ("values", "blocks", "mixed", "units", "multiline")}
 PUNCT = set("=,(){};")
 
 
 def optional_gap(a, b):
-    return a in PUNCT or b in PUNCT or b.startswith("<")
+    # white space is optional next to punctuation, before units, and after a quoted string (which delimits itself)
+    return a in PUNCT or b in PUNCT or b.startswith("<") or (len(a) > 1 and a[0] in "\"'" and a[-1] == a[0])
 
 
 def snap(m):
